@@ -242,7 +242,7 @@ fn main() {
         jobs.push(Job { label: "garbage".into(), text: t, model: k % 10 == 0 });
     }
     // self-referential definitions through every type constructor; generic names with every type-argument count
-    for (k, (label, text)) in infinite_type_texts().into_iter().chain(arity_texts()).chain(illformed_decl_texts()).chain(diverging_texts()).chain(literal_edge_texts()).chain(default_binding_texts()).chain(namespace_texts()).chain(assignment_texts()).enumerate() {
+    for (k, (label, text)) in infinite_type_texts().into_iter().chain(arity_texts()).chain(illformed_decl_texts()).chain(diverging_texts()).chain(literal_edge_texts()).chain(default_binding_texts()).chain(default_context_texts()).chain(namespace_texts()).chain(assignment_texts()).enumerate() {
         jobs.push(Job { label, text, model: k % 25 == 0 });
     }
     // dot completion behind every kind of receiver: in the stream (every offset, worker processes) …
@@ -339,7 +339,7 @@ fn main() {
     let mut seen: BTreeMap<(String, String), u64> = BTreeMap::new();
     let mut queries = 0u64;
     for (j, r) in jobs.iter().zip(results) {
-        let kind = j.label.split(':').take(if j.label.starts_with("mut") || j.label.starts_with("inftype") || j.label.starts_with("arity") || j.label.starts_with("illdecl") || j.label.starts_with("diverge") || j.label.starts_with("litedge") || j.label.starts_with("defbind") || j.label.starts_with("nsuse") || j.label.starts_with("assign") || j.label.starts_with("complete") { 2 } else { 1 }).collect::<Vec<_>>().join(":");
+        let kind = j.label.split(':').take(if j.label.starts_with("mut") || j.label.starts_with("inftype") || j.label.starts_with("arity") || j.label.starts_with("illdecl") || j.label.starts_with("diverge") || j.label.starts_with("litedge") || j.label.starts_with("defbind") || j.label.starts_with("defctx") || j.label.starts_with("nsuse") || j.label.starts_with("assign") || j.label.starts_with("complete") { 2 } else { 1 }).collect::<Vec<_>>().join(":");
         ctx.count(&format!("text:{kind}"));
         if !j.text.is_ascii() {
             ctx.count("text:non-ascii");
